@@ -163,13 +163,42 @@ func compareWithSource(res *lib.Result, g *lib.ChainGen, n *node, task chainTask
 	}
 	res.Hit("stored-content-compared-with-source")
 	res.Case(fmt.Sprintf("stored-content/%d/%v", task.Chain, task.DstNew), true)
-	if dbDigest(n.db) == dbDigest(g.SrcDB) {
+	// The legacy trie stores nodes with or without cached child hashes depending on the path that
+	// wrote them (Finalise vs Store): same tries, same root (juno verified it), other bytes. That
+	// encoding is C01's subject; here the node buckets of the legacy tries are left out.
+	skip := [][]byte{db.StateTrie.Key(), db.ContractStorage.Key(), db.ClassesTrie.Key()}
+	a, b := filteredCopy(g.SrcDB, skip), filteredCopy(n.db, skip)
+	if dbDigest(a) == dbDigest(b) {
 		return
 	}
 	res.Violate(lib.Violation{Sig: "stored-content-differs-from-source",
 		What: fmt.Sprintf("after storing the %d valid blocks through SanityCheckNewHeight+Store the database differs from the source node's (same state backend): %s",
-			len(g.Bundles), dbDiff(g.SrcDB, n.db)),
+			len(g.Bundles), dbDiffValues(a, b)),
 		Replay: replay{Task: task, Case: "stored-content"}})
+}
+
+// filteredCopy copies a database without the keys that start with one of the prefixes.
+func filteredCopy(d *memory.Database, skip [][]byte) *memory.Database {
+	out := memory.New()
+	it, err := d.NewIterator(nil, false)
+	if err != nil {
+		panic(err)
+	}
+	defer it.Close()
+	for ok := it.First(); ok; ok = it.Next() {
+		k := it.Key()
+		drop := false
+		for _, p := range skip {
+			if len(k) >= len(p) && string(k[:len(p)]) == string(p) {
+				drop = true
+			}
+		}
+		if !drop {
+			v, _ := it.Value()
+			_ = out.Put(append([]byte{}, k...), append([]byte{}, v...))
+		}
+	}
+	return out
 }
 
 // revertAndReoffer: RevertHead on the destination, a tampered offer, then the valid head again.
@@ -320,4 +349,26 @@ func sortFelts(ks []felt.Felt) []felt.Felt {
 func sortStrings(xs []string) []string {
 	sort.Strings(xs)
 	return xs
+}
+
+// dbDiffValues is dbDiff with the two values of changed keys.
+func dbDiffValues(a, b *memory.Database) string {
+	out := dbDiff(a, b)
+	get := func(d *memory.Database, k []byte) string {
+		var v []byte
+		_ = d.Get(k, func(x []byte) error { v = append([]byte{}, x...); return nil })
+		return fmt.Sprintf("%x", v)
+	}
+	it, _ := b.NewIterator(nil, false)
+	defer it.Close()
+	n := 0
+	for ok := it.First(); ok && n < 3; ok = it.Next() {
+		k := append([]byte{}, it.Key()...)
+		va, vb := get(a, k), get(b, k)
+		if va != vb && va != "" {
+			out += fmt.Sprintf(" [%x: source=%s destination=%s]", k, va, vb)
+			n++
+		}
+	}
+	return out
 }
